@@ -394,9 +394,24 @@ YR_API int yr_rules_load_stream(YR_STREAM* stream, YR_RULES** rules)
   // Load the arena's data the stream. We are the owners of the arena.
   FAIL_ON_ERROR(yr_arena_load_stream(stream, &arena));
 
+  // Make sure that the arena has the sections that YR_RULES relies on: the
+  // summary must be complete and the rules table must be large enough for the
+  // number of rules stated in the summary.
+  if (arena->num_buffers != YR_NUM_SECTIONS ||
+      yr_arena_get_current_offset(arena, YR_SUMMARY_SECTION) !=
+          sizeof(YR_SUMMARY) ||
+      yr_arena_get_current_offset(arena, YR_RULES_TABLE) / sizeof(YR_RULE) <
+          ((YR_SUMMARY*) yr_arena_get_ptr(arena, YR_SUMMARY_SECTION, 0))
+              ->num_rules)
+  {
+    yr_arena_release(arena);
+    return ERROR_CORRUPT_FILE;
+  }
+
   // Create the YR_RULES object from the arena, this makes YR_RULES owner
   // of the arena too.
-  FAIL_ON_ERROR(yr_rules_from_arena(arena, rules));
+  FAIL_ON_ERROR_WITH_CLEANUP(
+      yr_rules_from_arena(arena, rules), yr_arena_release(arena));
 
   // Release our ownership so that YR_RULES is the single owner. This way the
   // arena is destroyed when YR_RULES is destroyed.
